@@ -393,3 +393,31 @@ Proof.
   intros Hs [_ Hl]. unfold value_merge. destruct (is_null other); [discriminate|]. rewrite Hl. cbn [bind].
   apply merge_core_no_panic, Hs.
 Qed.
+
+(** flattening a ValueList whose layers are neither Strings nor ValueLists: never a panic, and
+    the result is neither a String nor a ValueList *)
+Lemma flat_fold_layers ck : forall l base,
+  Forall (fun x => wf x /\ top_ok x) l -> top_ok base ->
+  (forall s, flat_fold ck l base <> Panic s) /\
+  (forall r, flat_fold ck l base = Ok r -> top_ok r).
+Proof.
+  induction l as [|x l IH]; intros base Hl Hb; cbn [flat_fold].
+  - split; [discriminate | intros r H; injection H as <-; exact Hb].
+  - inversion Hl as [|? ? [Hx [Hxs Hxl]] Hl']; subst.
+    destruct (is_null x) eqn:En; cbn [bind].
+    + apply IH; [exact Hl' | split; reflexivity].
+    + assert (Ex : match x with VList _ => flattened ck x | _ => Ok x end = Ok x).
+      { destruct x; try reflexivity. discriminate. }
+      rewrite Ex. cbn [bind].
+      destruct (merge_core ck base x) as [b'| | |] eqn:Em; cbn [bind].
+      * apply IH; [exact Hl' | eapply merge_core_top; [split; eassumption | exact Em]].
+      * split; discriminate.
+      * exfalso. eapply merge_core_no_panic; [exact Hb | exact Em].
+      * split; discriminate.
+Qed.
+
+Lemma flattened_layers ck l :
+  Forall (fun x => wf x /\ top_ok x) l ->
+  (forall s, flattened ck (VList l) <> Panic s) /\
+  (forall r, flattened ck (VList l) = Ok r -> top_ok r).
+Proof. intros H. rewrite flattened_vlist. apply flat_fold_layers; [exact H | split; reflexivity]. Qed.
